@@ -26,12 +26,17 @@ Section Sym.
     split; [vm_compute; reflexivity | repeat split].
   Qed.
 
+  Lemma rounds_S n x : rounds add xor rotr (S n) x = rounds add xor rotr n (dround add xor rotr x).
+  Proof. reflexivity. Qed.
+  Lemma siter_S {A} n (f : A -> A) (y : A) : S.iter (S n) f y = S.iter n f (f y).
+  Proof. reflexivity. Qed.
+
   Lemma rounds_narrow n x : shape 4 x ->
     flat (rounds add xor rotr n x) = S.iter n (S.double_round add xor rotl_of) (flat x)
     /\ shape 4 (rounds add xor rotr n x).
   Proof.
     revert x. induction n as [|n IH]; intros x Hx; [now split|].
-    unfold rounds in *. cbn [iter S.iter].
+    rewrite (rounds_S n x), (siter_S n (S.double_round add xor rotl_of) (flat x)).
     destruct (dround_narrow x Hx) as [E Hs].
     rewrite <- E. apply IH, Hs.
   Qed.
@@ -58,10 +63,10 @@ Section Sym.
     /\ shape 16 (rounds add xor rotr n x).
   Proof.
     revert x. induction n as [|n IH]; intros x Hx; [now split|].
-    unfold rounds in *. cbn [iter].
+    rewrite (rounds_S n x).
     destruct (dround_wide x Hx) as [E Hs].
     destruct (IH _ Hs) as [E' Hs'].
     split; [|exact Hs'].
-    intros i Hi. rewrite E' by exact Hi. now rewrite E.
+    intros i Hi. rewrite E' by exact Hi. rewrite E by exact Hi. symmetry. apply rounds_S.
   Qed.
 End Sym.
